@@ -1395,4 +1395,25 @@ example : ZeroMean 2 (tensorPts [dithers1 2, dithers1 3] : List (List Rat)) := b
 example : evalSupersampled (affine (1 : Rat) [2, 3]) [[0, 1, 2, 4], [0, 1, 3]] [2, 3]
     = (gridPts [[0, 1, 2, 4], [0, 1, 3]]).map (affine 1 [2, 3]) := by decide +kernel
 
+/-! ### round 6: the dithered sub-grids keep the coordinate system (seeded class C18-11) -/
+
+/-- **Sub-grids keep the coordinate system**: every grid `evaluate_supersampled` hands to the generator (driver op
+`subgrids`, compared with the class and the coordinates of the grids the real generator receives) has the class of
+the grid that is supersampled — a polar grid is never relabelled Cartesian — for every per-axis oversampling. -/
+theorem subGrids_keep_system (g : SGrid K) (ns : List Nat) : ∀ s ∈ subGrids g ns, s.sys = g.sys := by
+  intro s hs
+  simp only [subGrids, List.mem_map] at hs
+  obtain ⟨d, _, rfl⟩ := hs
+  rfl
+
+/-- the `k`-th axis of the sub-grid for the dither `d` is the `k`-th axis of the grid shifted by `d_k` times the local
+cell widths (`deltas`), the same `x + d·δ` the value model `evalSupersampled` evaluates at (`dithered`) -/
+theorem ditherGrid_axis (g : SGrid K) (d : List K) (k : Nat) (ax : List K) (dk : K)
+    (hax : g.sep[k]? = some ax) (hd : d[k]? = some dk) :
+    (ditherGrid g d).sep[k]? = some (List.zipWith (fun x w => x + dk * w) ax (deltas ax)) := by
+  simp [ditherGrid, List.getElem?_zipWith, hax, hd]
+
+example : ∃ (g : SGrid ℚ) (d : List ℚ) (ax : List ℚ) (dk : ℚ), g.sep[0]? = some ax ∧ d[0]? = some dk :=
+  ⟨⟨.polar, [[1, 2], [0, 1]]⟩, [1/4, 0], [1, 2], 1/4, rfl, rfl⟩
+
 end HcipyVerif.Interp
